@@ -98,6 +98,9 @@ def routes(ts):
         out.append(("truediv", q))
         if ts:
             out.append(("join.multi", JSONPointer("").join("/".join(rptr.escape(t) for t in ts)) if ts[0] != "" or len(ts) == 1 else p))
+            # several arguments in one call; and an absolute part in a later position replaces what came before
+            out.append(("join.args", JSONPointer("").join(*[rptr.escape(t) for t in ts])))
+            out.append(("join.args.absolute", JSONPointer("/zz").join("yy", "/" + rptr.escape(ts[0]), *[rptr.escape(t) for t in ts[1:]])))
     out.append(("parent", JSONPointer(rptr.encode(list(ts) + ["x"])).parent()))
     return text, out
 
@@ -228,6 +231,7 @@ def letters():
     out.append(("parent", None))
     out.append(("replace", ["x", "0"]))
     out.append(("multi", ["a", "0"]))
+    out.append(("args-absolute", ["x", "0"]))
     return out
 
 
@@ -237,7 +241,7 @@ def _model_step(ts, letter):
         return ts + [arg]
     if op == "parent":
         return ts[:-1]
-    if op == "replace":
+    if op in ("replace", "args-absolute"):
         return list(arg)
     if op == "multi":
         return ts + list(arg)
@@ -296,6 +300,8 @@ def _run_chain(si, hist, acc, record=True):
                 p = p.join(rptr.encode(arg))
             elif op == "multi":
                 p = p.join("/".join(rptr.escape(t) for t in arg))
+            elif op == "args-absolute":
+                p = p.join("q", "/" + rptr.escape(arg[0]), *[rptr.escape(t) for t in arg[1:]])
             text = rptr.encode(ts)
             if str(p) != text:
                 bad = ("text", text, str(p))
@@ -341,7 +347,7 @@ def _run_chain(si, hist, acc, record=True):
 
 REQUIRE = {"route.parse": 1000, "route.from_parts.str": 1000, "route.from_parts.int": 100, "route.join": 500,
            "route.truediv": 500, "route.parent": 1000, "pairs": 1, "letter.join": 100, "letter.div": 100,
-           "letter.parent": 100, "letter.replace": 10, "letter.multi": 10}
+           "letter.parent": 100, "letter.replace": 10, "letter.multi": 10, "letter.args-absolute": 10, "route.join.args": 500}
 
 
 def check_case(sub, case, acc):
